@@ -84,6 +84,12 @@ def build_harness():
     global _vh
     if _vh:
         return _vh
+    if os.environ.get("VERIF_VH"):
+        # development only (lib/seed_detect_par.sh): a harness already built against a scratch worktree
+        # that carries a seeded change; no registered command sets this
+        _vh = os.environ["VERIF_VH"]
+        log("harness: prebuilt " + _vh)
+        return _vh
     out = os.path.join(scratch(), "vh")
     # go.sum of the harness = go.sum of the repo (same dependency set)
     try:
